@@ -13,7 +13,8 @@ Full statement aimed at (kept visible; the theorems below are its proved parts):
       d.hits ≈ chart.hits ∧ d.holds ≈ chart.holds ∧ d.tempo ≈ chart.bpms   (= on the snap grid, ≤ 1/192 beat off it) ∧
       ∀ l ∈ lines, isDataLine l → lineValid l
 
-Proved: `findLcm_dvd` (invariant of the double loop), `slot_exact` (re-slotting keeps the position),
+Proved: `findLcm_dvd` (invariant of the double loop), `newDens_dvd`, `slot_exact` (re-slotting keeps the position),
+`slot_roundtrip` (a written slot denotes exactly the row's snap),
 `no_merge_no_drop` (line level: every cell's id sits on its slot, every other slot is `00`, the line has `den`
 slots), `line_valid`, `base36_roundtrip` (ids of up to 1295 tempo points are distinct two-character ids),
 `writer_consts_tie`, and `bpm_3f_counterexample` (D06).
@@ -193,6 +194,35 @@ theorem newDens_dvd (thr : Nat) (rows : List WSlot) (hpos : ∀ r ∈ rows, 0 < 
       rw [List.getD_eq_getElem?_getD, List.getElem?_eq_getElem hl, Option.getD_some, List.getElem_map, ← h1, hgq]
     rw [hget] at hd
     exact hd
+
+/-- **A written object denotes its snap.** A row with a normalised 4/4 snap (`beat = num/bden ≥ 0`) becomes slot
+`idx` of a line with `nd` slots (`den = 4·bden ∣ nd`); by the book that slot is beat `4·idx/nd` of the measure —
+exactly the snap's beat.  (`slot_exact` composed with `den = beat.den·4`, `num = beat.num`.) -/
+theorem slot_roundtrip (r : WRow) (nd : Nat) (hmet : r.snap.met = some 4) (hb : 0 ≤ r.snap.beat) (hnd : 0 < nd)
+    (hdvd : (slotOfRow r).den ∣ nd) :
+    4 * (((cellOf (slotOfRow r) nd).idx : Nat) : Rat) / ((nd : Nat) : Rat) = r.snap.beat := by
+  have hden : (slotOfRow r).den = r.snap.beat.den * 4 := by
+    simp only [slotOfRow, hmet, Option.getD_some]
+    have : ((4 : Rat).floor).toNat = 4 := by decide +kernel
+    rw [this]
+  have hdpos : 0 < (slotOfRow r).den := by
+    rw [hden]; exact Nat.mul_pos r.snap.beat.den_pos (by decide)
+  have hex := (slot_exact (slotOfRow r) nd hdpos hdvd).1
+  have hnum : (((slotOfRow r).num : Nat) : Rat) = (r.snap.beat.num : Rat) := by
+    have h0 : 0 ≤ r.snap.beat.num := Rat.num_nonneg.mpr hb
+    have : (((slotOfRow r).num : Nat) : Int) = r.snap.beat.num := by
+      simp only [slotOfRow]; exact Int.toNat_of_nonneg h0
+    exact_mod_cast congrArg (fun z : Int => (z : Rat)) this
+  have hexq : (((cellOf (slotOfRow r) nd).idx : Nat) : Rat) * (((slotOfRow r).den : Nat) : Rat) =
+      (((slotOfRow r).num : Nat) : Rat) * ((nd : Nat) : Rat) := by exact_mod_cast congrArg (fun z : Nat => (z : Rat)) hex
+  rw [hden, hnum] at hexq
+  have hbd : ((r.snap.beat.den : Nat) : Rat) ≠ 0 := by exact_mod_cast r.snap.beat.den_nz
+  have hndq : ((nd : Nat) : Rat) ≠ 0 := by exact_mod_cast Nat.pos_iff_ne_zero.mp hnd
+  have hq : r.snap.beat = (r.snap.beat.num : Rat) / ((r.snap.beat.den : Nat) : Rat) := (Rat.num_div_den r.snap.beat).symm
+  rw [hq]
+  push_cast at hexq
+  field_simp
+  linarith
 
 /-! ### the slot fill -/
 
